@@ -32,7 +32,7 @@ def run(ctx):
                 removers.add(f.name)
     ctx.floor("R03.1", "functions removing entries from the value store", len(removers), 2)
     # every store operation kind is known (a new kind of store mutation must be classified)
-    known = {"insert", "remove", "clear", "get", "get_mut", "contains_key", "len", "is_empty", "iter", "retain", "remove_if", "remove_if_mut", "entry", "iter_mut", "alter", "alter_all", "shrink_to_fit", "capacity", "new", "with_capacity", "with_shard_amount", "with_capacity_and_shard_amount", "with_hasher", "with_capacity_and_hasher", "with_capacity_and_hasher_and_shard_amount"}
+    known = {"try_get", "try_get_mut", "view", "insert", "remove", "clear", "get", "get_mut", "contains_key", "len", "is_empty", "iter", "retain", "remove_if", "remove_if_mut", "entry", "iter_mut", "alter", "alter_all", "shrink_to_fit", "capacity", "new", "with_capacity", "with_shard_amount", "with_capacity_and_shard_amount", "with_hasher", "with_capacity_and_hasher", "with_capacity_and_hasher_and_shard_amount"}
     unknown = sorted(set(S.ops) - known)
     ctx.check(not unknown, "R03.1", "store-ops-classified", "every kind of operation applied to the value store is classified", detail=str(unknown))
     mutating_other = sorted(m for m in S.ops if m in ("entry", "iter_mut", "alter", "alter_all"))
